@@ -97,6 +97,23 @@ Theorem c01_stale_snapshot_parks_refuted :
    memN 4 (s_ext s) = true /\ s_orph s = [] /\ s_queue s = []).
 Proof. exact (conj recent_only_parks_child_of_verified always_connects_it). Qed.
 
+(* search_orphan_leader reads is_pending_verify and the block status one after the other while the
+   verify thread may complete any number of blocks in between.  Reading is_pending_verify first (the
+   verify thread publishes the snapshot before it removes the block from is_pending_verify), a leader
+   that has been handed over or verified is always seen, so its waiting descendants are released. *)
+Theorem c01_pending_first_sees_handled_leader : forall ops p k,
+  let s := brun always binit ops in
+  handled s p = true -> leader_there true s (verify_n k s) p = true.
+Proof. exact pending_first_sees_handled_leader. Qed.
+
+(* F21 (repaired by be63b31): reading the status first, a leader verified between the two reads is seen
+   as neither stored nor pending *)
+Theorem c01_status_first_misses_leader_refuted :
+  handled ex_racing 1 = true /\ handled (verify always ex_racing) 1 = true /\
+  leader_there false ex_racing (verify always ex_racing) 1 = false /\
+  leader_there true ex_racing (verify always ex_racing) 1 = true.
+Proof. exact status_first_misses_leader. Qed.
+
 Redirect "out/C01.c01_order_independent" Print Assumptions c01_order_independent.
 Redirect "out/C01.c01_heaviest" Print Assumptions c01_heaviest.
 Redirect "out/C01.c01_records" Print Assumptions c01_records.
@@ -107,3 +124,5 @@ Redirect "out/C01.c01_example_result" Print Assumptions c01_example_result.
 Redirect "out/C01.c01_parked_iff_parent_unhandled" Print Assumptions c01_parked_iff_parent_unhandled.
 Redirect "out/C01.c01_child_of_handled_parent_is_queued" Print Assumptions c01_child_of_handled_parent_is_queued.
 Redirect "out/C01.c01_stale_snapshot_parks_refuted" Print Assumptions c01_stale_snapshot_parks_refuted.
+Redirect "out/C01.c01_pending_first_sees_handled_leader" Print Assumptions c01_pending_first_sees_handled_leader.
+Redirect "out/C01.c01_status_first_misses_leader_refuted" Print Assumptions c01_status_first_misses_leader_refuted.
